@@ -30,6 +30,7 @@ type Obligation struct {
 	Msg      string     `json:"msg,omitempty"`
 	Inputs   []InputRec `json:"inputs,omitempty"` // counterexample replay vector
 	Sched    []int64    `json:"sched,omitempty"`
+	HookPlan map[string][]int `json:"hook_plan,omitempty"`
 	Pos      string     `json:"pos,omitempty"`
 }
 
